@@ -303,7 +303,16 @@ func init() {
 		},
 		Cases: c17Cases,
 		Run:   c17Run1,
-		Needs: []string{"plugins"},
+		// the same cases once more in the race build: plugins of one run execute concurrently and share the
+		// response writer, the output buckets and the image caches
+		RaceCases: func(tier string) int {
+			if tier == "thorough" {
+				return 16
+			}
+			return 4
+		},
+		RunRace: c17Run1,
+		Needs:   []string{"plugins"},
 		Required: []string{"images", "runs", "runs_v1", "runs_v2", "requests_checked", "files_generated_once", "imports_generated_once", "wkt_generated_once", "imports_withheld", "wkt_withheld",
 			"imports_shared_between_requests", "targets_imported_by_other_requests", "multi_request_invocations", "closure_files_checked", "order_edges_checked",
 			"source_options_stripped_from_runtime_view", "source_options_kept_in_source_view", "source_options_kept_in_ungenerated_imports", "runtime_views_checked",
